@@ -43,7 +43,7 @@ type mergeFns struct {
 }
 
 func (b *Body) mergeAnchors() *mergeFns {
-	return &mergeFns{fnOf(b.Lib, "merge"), fnOf(b.Lib, "mergeDocs"), fnOf(b.Lib, "pruneNulls"), fnOf(b.Lib, "pruneAryNulls"), fnOf(b.Lib, "doMergePatch")}
+	return &mergeFns{b.roleFn("merge"), b.roleFn("mergeDocs"), b.roleFn("pruneNulls"), b.roleFn("pruneAryNulls"), b.roleFn("doMergePatch")}
 }
 
 // memberLoop describes mergeDocs' loop over the patch members.
@@ -627,8 +627,8 @@ func ruleCmpShape(c *Ctx) {
 	for _, b := range c.bodies() {
 		l := c.L
 		cm := fnOf(b.Lib, "CreateMergePatch")
-		ca := fnOf(b.Lib, "createArrayMergePatch")
-		co := fnOf(b.Lib, "createObjectMergePatch")
+		ca := b.roleFn("createArrayMergePatch")
+		co := b.roleFn("createObjectMergePatch")
 		if cm == nil || ca == nil || co == nil {
 			l.add("R-CMPSHAPE", b.Name, "anchor", "", Undecided, "CreateMergePatch / createArrayMergePatch / createObjectMergePatch not found", false)
 			continue
@@ -688,7 +688,7 @@ func ruleCmpShape(c *Ctx) {
 			l.add("R-CMPSHAPE", b.Name, key, b.rel(ca.Pos()), v, why, true)
 		}
 		// getDiff: both walks (changed/added members of b, deleted members of a) precede every successful return
-		if gd := fnOf(b.Lib, "getDiff"); gd != nil && len(gd.Params) == 2 {
+		if gd := b.roleFn("getDiff"); gd != nil && len(gd.Params) == 2 {
 			key := "getDiff: every successful return has passed both member walks (additions/changes over b, deletions over a)"
 			bad := ""
 			headers := map[int]*ssa.BasicBlock{}
